@@ -164,11 +164,11 @@ PROPS["C11"] = {
 
 PROPS["C10"] = {
     "functions": ["_event.Signal.dispatch", "_event.Signal._subscribe", "_event.Signal._check_is_bound_signal", "_event.Signal.__get__",
-                  "_event.stream_events", "_event.wait_event", "_event.Signal.wait_event"],
+                  "_event.stream_events", "_event.stream_events.filter_events", "_event.wait_event", "_event.Signal.wait_event"],
     "trusted": ["A-MS anyio memory object stream (send_nowait: closed -> ClosedResourceError, no receiver -> BrokenResourceError, room -> "
                 "buffered/handed over, else WouldBlock; never suspends; FIFO, each item once)", "A-CM contextmanager generator protocol",
                 "A-WR weakref", "A-SUB1 a subscription removes only its own stream", "warnings.warn does not raise", "pyvc list model"],
-    "assumptions": ["filter_events and the unwinding of stream_events' exit stack (symbolic depth) are outside the deductive reach of this build: "
+    "assumptions": ["the unwinding of stream_events' exit stack (symbolic depth) is outside the deductive reach of this build: "
                     "covered by the bounded harness only; the composition lemma (FIFO + bracket => exact subsequence) rests on A-MS",
                     "I_sig (open, distinct send streams in every subscriber list) is a precondition of dispatch"],
     "undecided": ["promptness (wait_event returns as soon as ...)"],
@@ -179,8 +179,8 @@ PROPS["C10"] = {
                   "queue, ClosedResourceError impossible under I_sig; never suspends. Signal._subscribe is verified as a bracket (append, yield, "
                   "remove of the same stream on every exit). stream_events is verified up to its yield: 'the listening starts when this function is called' - "
                   "on entry, with no suspension point passed, this call's send stream is in the subscriber list of every given (bound) signal; wait_event "
-                  "enters it before its first suspension. filter_events (which events the stream yields) and the exit half of stream_events: bounded harness.",
-    "level_note": "Not counted as proved: filter_events, the exit half of stream_events (bounded, scope in evidence). Trusted: A-MS, A-MS0, A-CM, A-SEQ, A-WR, A-SUB1.",
+                  "enters it before its first suspension; filter_events yields exactly the received events the filter accepts. The exit half of stream_events: bounded harness.",
+    "level_note": "Not counted as proved: the exit half of stream_events (bounded, scope in evidence). Trusted: A-MS, A-MS0, A-CM, A-SEQ, A-WR, A-SUB1.",
     "design_ref": "DESIGN.md section 5 (C10)",
     "technique": "contract-based deductive verification of Signal.dispatch and Signal._subscribe (pyvc + z3) + bounded model-based harness for the stream_events/wait_event wrappers",
     "explanation": "dispatch: one-send-attempt-per-subscriber, only-own-subscribers-touched, stamped-before-sending, never-suspends; _subscribe bracket. "
@@ -242,8 +242,8 @@ COMP_TRUSTED = CTX_TRUSTED + [
     "its _child_components is None or the dict written by add_component",
     "A-PLUG a PluginContainer's cache/entry-point dictionaries are private to it", "A-REF resolve_reference (import + getattr walk)",
     "A-BADARG merge_config raises before writing when given a non-dict",
-    "A-NEXT the filtering generator of stream_events (3-line async generator filter_events over the receive end) yields, in order, the events "
-    "received on this call's stream that the filter accepts (bounded evidence: C10 harness); A-MS0 create_memory_object_stream gives a fresh open pair; "
+    "A-NEXT `await stream.__anext__()` on the filtering generator runs it to its next yield (async generator protocol); the generator itself "
+    "(filter_events) is verified: it yields exactly the received events the filter accepts; A-MS0 create_memory_object_stream gives a fresh open pair; "
     "A-SEQ a list of signals is read like the tuple of its items; A-STREAM-EXIT leaving stream_events unsubscribes and closes (bounded)",
     "lemma:frame (proved every run, listed under functions): writes confined to private containers preserve every class invariant and guarantee",
 ]
@@ -295,7 +295,7 @@ PROPS["C07"] = {
 }
 PROPS["C06"] = {
     "functions": ["_component.ComponentContext.get_resource", "_component.ComponentContext.get_resource.<lambda@0>",
-                  "_event.Signal.wait_event", "_event.wait_event", "_event.stream_events",
+                  "_event.Signal.wait_event", "_event.wait_event", "_event.stream_events", "_event.stream_events.filter_events",
                   "_context.Context.get_resource", "_context.Context.add_resource", "_context.Context.add_resource_factory",
                   "_event.Signal.dispatch", "_event.Signal._subscribe"],
     "clauses": lambda q, o: q.startswith("_component.") or q.startswith("_event.") or any(
@@ -314,8 +314,9 @@ PROPS["C06"] = {
                   "per subscriber, _subscribe removes exactly its own stream; Signal.wait_event delegates to wait_event([self], filter), which enters "
                   "stream_events before its first suspension, and stream_events - verified up to its yield, for every sequence of bound signals - has "
                   "subscribed this call's new send stream to every given signal without passing a suspension point or calling foreign code. "
-                  "Bounded: what the filtering generator yields (A-NEXT), the exit half of stream_events.",
-    "level_note": "Not counted as proved: the filtering generator filter_events and the exit half of stream_events (bounded: C10 and component harness). KNOWN-FINDING F9.",
+                  "filter_events yields exactly the received events that the filter accepts (or all without a filter), each once, in order. "
+                  "Bounded: the exit half of stream_events.",
+    "level_note": "Not counted as proved: the exit half of stream_events (bounded: C10 and component harness). KNOWN-FINDING F9.",
     "design_ref": "DESIGN.md section 5 (C06)",
     "technique": "contract-based deductive verification of ComponentContext.get_resource, its filter lambda, the publishing side and Signal.dispatch/_subscribe (pyvc + z3) + bounded harness",
     "explanation": "required:no-suspension-between-the-miss-and-the-subscription, required:waits-with-the-name-and-type-filter, accepts-exactly-name-and-type-matches, "
@@ -347,7 +348,7 @@ PROPS["C14"] = {
 
 
 PROPS["C15"] = {
-    "functions": ["_runner._run_application_async", "_runner.run_application", "_context.start_service_task", "_context.Context.__aexit__",
+    "functions": ["_runner._run_application_async", "_runner.run_application", "_runner.handle_signals", "_context.start_service_task", "_context.Context.__aexit__",
                   "_context.Context._run_teardown_callbacks", "_context.Context.__aenter__", "lemma:frame"],
     "trusted": COMP_TRUSTED + LIFE_TRUSTED + [
         "start_component contract (verified under C05/C07/C14)", "Context.start_service_task contract (verified under C08)",
@@ -355,10 +356,11 @@ PROPS["C15"] = {
         "A-PURE-EXT platform.system / functools.partial / get_cancelled_exc_class are pure", "A-CS CancelScope", "A-EV anyio.Event",
         "anyio.run returns the coroutine's result / propagates its exception; sys.exit(n) raises SystemExit(n) (run_application's last statement, bounded harness)"],
     "assumptions": COMP_ASSUME + [
-        "handle_signals (open_signal_receiver loop) is covered by the bounded harness only; run_application is verified up to the assumed "
-        "behaviour of anyio.run (returns the coroutine's result / propagates its exception) and sys.exit",
+        "handle_signals is verified up to A-SIGRECV (anyio.open_signal_receiver installs the handlers on entry and yields the received signal numbers): "
+        "started() is reported only after the receiver is installed, the first signal cancels the startup scope and sets the shutdown event in one atomic "
+        "segment; run_application is verified up to the assumed behaviour of anyio.run (returns the coroutine's result / propagates its exception) and sys.exit",
         "reading a local variable that was never bound is not modelled (UnboundLocalError); excluded here by A-SIG0"],
-    "undecided": ["signals: delivery and the handler task are outside the deductive reach (bounded harness)"],
+    "undecided": ["OS-level signal delivery (A-SIGRECV) - bounded harness"],
     "level": "other",
     "level_text": "Partly proved, partly bounded. Proved on the real body of _run_application_async, all paths: one root context is entered, the signal "
                   "handler service task is started inside it before start_component(component_class, config, timeout=start_timeout); once the root context is "
